@@ -40,6 +40,7 @@ from ngo.utils.ast import (
     is_predicate,
     largest_subset,
     replace_simple_assignments,
+    transform_ast,
 )
 from ngo.utils.globals import UniqueNames
 
@@ -194,6 +195,38 @@ class SymmetryTranslator:
                     return (op, lit)
         return None
 
+    @staticmethod
+    def _is_symmetric(groups: list[set[AST]], comparisons: list[AST], nstrict: list[AST], lits: list[AST]) -> bool:
+        """true if exchanging any two literals of a group (together with their variables) maps the literals in lits
+        onto themselves, and the < comparisons of the groups do not contradict each other.
+        comparisons are the comparison literals that prove the inequalities of the groups"""
+        others = [lit for lit in lits if lit not in comparisons]
+        expected = sorted(map(str, others))
+        # the exchanges to check: for pairs of literals all groups are exchanged at once, otherwise every two literals
+        exchanges: list[list[tuple[AST, AST]]] = []
+        if all(len(group) == 2 for group in groups):
+            exchanges.append([tuple(sorted(group)) for group in groups])  # type: ignore
+        else:
+            for group in groups:
+                exchanges.extend([[pair] for pair in combinations(sorted(group), 2)])
+        for exchange in exchanges:
+            swap: dict[AST, AST] = {}
+            for lhs, rhs in exchange:
+                for left, right in zip(lhs.atom.symbol.arguments, rhs.atom.symbol.arguments):
+                    if left == right:
+                        continue
+                    if left.ast_type != ASTType.Variable or right.ast_type != ASTType.Variable:
+                        return False
+                    if swap.setdefault(left, right) != right or swap.setdefault(right, left) != left:
+                        return False
+            image = [transform_ast(lit, "Variable", lambda var, swap=swap: swap.get(var, var)) for lit in others]
+            if sorted(map(str, image)) != expected:
+                return False
+        order = nx.DiGraph()
+        for _, smaller, larger in SymmetryTranslator._inequalities(nstrict)[ComparisonOperator.LessThan]:
+            order.add_edge(smaller, larger)
+        return bool(nx.is_directed_acyclic_graph(order))
+
     def _crosscheck(
         self,
         potential_equalities: list[set[AST]],
@@ -222,15 +255,6 @@ class SymmetryTranslator:
             visible_vars: set[AST] = set(global_vars)
             for lit in lits:
                 visible_vars.update(collect_ast(lit, "Variable"))
-            # the compared variables may also not occur at the other (equal) positions of the joined literals
-            for index in index_subset:
-                unequal_positions = set(potential_strict_inequalities[index]) | set(
-                    potential_nstrict_inequalities[index]
-                )
-                for pred in potential_equalities[index]:
-                    for pos, arg in enumerate(pred.atom.symbol.arguments):
-                        if pos not in unequal_positions:
-                            visible_vars.update(collect_ast(arg, "Variable"))
             if len(visible_vars & used_variables) == 0:
                 # built ccs, in a cc, only one comparison can be improved
                 g = nx.Graph()
@@ -242,6 +266,18 @@ class SymmetryTranslator:
                         if used_uneq_variables[index1] & used_uneq_variables[index2]:
                             g.add_edge(index1, index2)
                 for cc in nx.connected_components(g):
+                    if not self._is_symmetric(
+                        [potential_equalities[index] for index in cc],
+                        list(
+                            chain(
+                                *[chain(*potential_strict_inequalities[index].values()) for index in cc],
+                                *[chain(*potential_nstrict_inequalities[index].values()) for index in cc],
+                            )
+                        ),
+                        list(chain(*[chain(*potential_nstrict_inequalities[index].values()) for index in cc])),
+                        lits_param,
+                    ):
+                        continue
                     yield SymmetryTranslator.SymmetryBundle(
                         self.domain_predicates,
                         self.unique_names,
